@@ -91,8 +91,12 @@ class UpdateReferences:
           found = True
       elif isinstance(elem, gfapy.OrientedLine):
         if elem.line is oldref:
-          if hasattr(oldref, "is_complement") and \
-                            oldref.is_complement(newref):
+          if hasattr(oldref, "is_complement") and newref is not None and \
+              newref.is_compatible_complement(oldref.oriented_from,
+                oldref.oriented_to, oldref.overlap):
+            # same criterion as when the link is already there when the
+            # path is added (see Path._initialize_links); the overlap of a
+            # virtual link may be a placeholder
             elem.orient = gfapy.invert(elem.orient)
           elem.line = newref
           found = True
